@@ -96,6 +96,17 @@ def compare_cols(got, want_cols, want_dtype, names_got, names_want=("q0", "q1"))
     return probs
 
 
+def _square(cols):
+    out = {}
+    with numpy.errstate(all="ignore"):
+        for e1 in cols:
+            for e2 in cols:
+                e = tuple(x + y for x, y in zip(e1, e2))
+                t = cols[e1] * cols[e2]
+                out[e] = out[e] + t if e in out else t
+    return out
+
+
 def twice(R, op, label, f, check, tags, sub=None):
     """run f under both poison bytes; check(result) -> complaints on the first; byte-identical on both"""
     R.tr()
@@ -218,21 +229,24 @@ def run_case(case, R):
                         wmul[e] = wmul[e] + t if e in wmul else t
                 rdt = numpy.result_type(ca[keys[0]], cb[keys[0]])
             twice(R, "add", f"{da} + {db}", lambda: a + b, lambda got: compare_cols(got, wadd, wadd[keys[0]].dtype, None), tags)
-            # operands that carry an all-zero term (a retained zero constant): the product has keys that only such a term reaches
-            az, caz = poly_of(da, 0)
-            raw_view(az)[az.keys[0]] = 0
-            caz = dict(caz)
-            caz[(0, 0)] = numpy.zeros_like(caz[(0, 0)])
-            with numpy.errstate(all="ignore"):
-                wz = {}
-                for e1 in keys:
-                    for e2 in keys:
-                        e = tuple(x + y for x, y in zip(e1, e2))
-                        t = caz[e1] * cb[e2]
-                        wz[e] = wz[e] + t if e in wz else t
-            twice(R, "multiply", f"{da} (zero constant term) * {db}", lambda: az * b, lambda got: compare_cols(got, wz, wz[(0, 0)].dtype, None), tags + ["zero_term_operand"])
-            twice(R, "multiply", f"{db} * {da} (zero constant term)", lambda: b * az, lambda got: compare_cols(got, wz, wz[(0, 0)].dtype, None), tags + ["zero_term_operand"])
-            twice(R, "add", f"{da} (zero constant term) + {db}", lambda: az + b, lambda got: compare_cols(got, {e: caz[e] + cb[e] for e in keys}, wadd[keys[0]].dtype, None), tags + ["zero_term_operand"])
+            # operands that carry an all-zero term (the constant one, or a non-constant one as alignment leaves them): the product has keys
+            # that only such a term reaches
+            for zi, zlabel in ((0, "zero constant term"), (1, "zero q0 term"), (2, "zero q0*q1 term")):
+                az, caz = poly_of(da, 0)
+                raw_view(az)[az.keys[zi]] = 0
+                caz = dict(caz)
+                caz[sorted(caz)[zi]] = numpy.zeros_like(caz[sorted(caz)[zi]])
+                with numpy.errstate(all="ignore"):
+                    wz = {}
+                    for e1 in keys:
+                        for e2 in keys:
+                            e = tuple(x + y for x, y in zip(e1, e2))
+                            t = caz[e1] * cb[e2]
+                            wz[e] = wz[e] + t if e in wz else t
+                twice(R, "multiply", f"{da} ({zlabel}) * {db}", lambda: az * b, lambda got: compare_cols(got, wz, wz[(0, 0)].dtype, None), tags + ["zero_term_operand"])
+                twice(R, "multiply", f"{db} * {da} ({zlabel})", lambda: b * az, lambda got: compare_cols(got, wz, wz[(0, 0)].dtype, None), tags + ["zero_term_operand"])
+                twice(R, "multiply", f"{da} ({zlabel}) squared", lambda: az * az, lambda got: compare_cols(got, {e_: c_ for e_, c_ in _square(caz).items()}, None, None), tags + ["zero_term_operand"])
+                twice(R, "add", f"{da} ({zlabel}) + {db}", lambda: az + b, lambda got: compare_cols(got, {e: caz[e] + cb[e] for e in keys}, wadd[keys[0]].dtype, None), tags + ["zero_term_operand"])
             if wsub is not None:
                 twice(R, "subtract", f"{da} - {db}", lambda: a - b, lambda got: compare_cols(got, wsub, wsub[keys[0]].dtype, None), tags)
             twice(R, "multiply", f"{da} * {db}", lambda: a * b, lambda got: compare_cols(got, wmul, wmul[(0, 0)].dtype, None), tags)
